@@ -526,7 +526,12 @@ class AlignmentRotation(HomogFamilyAlignment, Rotation):
 
     def __init__(self, source, target, allow_mirror=False):
         HomogFamilyAlignment.__init__(self, source, target)
-        Rotation.__init__(
+        # build the rotation without going through self.set_rotation_matrix,
+        # which would re-derive the target from the fitted transform and so
+        # replace the target we were given by the aligned source
+        h_matrix = np.eye(source.n_dims + 1)
+        Similarity.__init__(self, h_matrix, copy=False, skip_checks=True)
+        Rotation.set_rotation_matrix(
             self, optimal_rotation_matrix(source, target, allow_mirror=allow_mirror)
         )
         self.allow_mirror = allow_mirror
